@@ -565,7 +565,11 @@ func (fr *Frame) checkPreClosure(in ssa.Instruction, callee *ssa.Function, c *Co
 func (fr *Frame) applyContract(in ssa.Instruction, callee *ssa.Function, cc *ssa.CallCommon, c *Contract, args []*Val, resT types.Type) *Val {
 	vc := fr.vc
 	if c.Trusted {
-		vc.Trusted["contract:"+c.Pkg+"."+c.Func] = true
+		if c.TrustWhy != "" {
+			vc.Trusted["contract:"+c.Pkg+"."+c.Func+" — "+c.TrustWhy] = true
+		} else {
+			vc.Trusted["contract:"+c.Pkg+"."+c.Func] = true
+		}
 	}
 	pre := fr.cur
 	env := vc.calleeEnv(fr, c, callee, cc, args)
